@@ -409,7 +409,7 @@ func c20(args []string) {
 	if err != nil {
 		c.Broken(err.Error())
 	}
-	c.Rule("(a) audit files of real runs of flat-path workflows built from plain shell commands (cat, tr, sed, rev, sort, wc, printf / awk with percent signs, multi-line commands with significant blanks, parameters used in the output name only; chains of depth 1-5, diamonds with a shared ancestor - also one whose branches start at the two outputs of one task -, sub-stream joins, parameters; also produced by resumed runs: RunTo a prefix, then Run) and (b) audit trees generated directly (two records of different executions for one file path in a tree, as resumed runs leave them; 1-60 records, DAG-shaped sharing, equal / whole-second / zero start times, parameters and tags with underscores, source-file pseudo records) are converted with the CLI built from /repo/cmd/scipipe (audit2html, audit2tex, audit2bash; in every second case a longer stale report of the same name already exists); the outputs are parsed back and compared with the record flattened by id: every task (non-empty process name) listed exactly once, in non-decreasing start-time order, with its command, parameters and tags as the format prints them; for (a) the generated Bash script is executed in a directory holding only the source files and must re-create the file byte-identically. distinct_nontrivial = distinct audit trees with >= 2 tasks whose three conversions were all compared")
+	c.Rule("(a) audit files of real runs of flat-path workflows built from plain shell commands (cat, tr, sed, rev, sort, wc, printf / awk with percent signs, multi-line commands with significant blanks, parameters used in the output name only; chains of depth 1-5, diamonds with a shared ancestor - also one whose branches start at the two outputs of one task -, sub-stream joins, parameters; also produced by resumed runs: RunTo a prefix, then Run; every third with the OutFiles fields removed, as an older library version wrote its records) and (b) audit trees generated directly (two records of different executions for one file path in a tree, as resumed runs leave them; 1-60 records, DAG-shaped sharing, equal / whole-second / zero start times, parameters and tags with underscores, source-file pseudo records) are converted with the CLI built from /repo/cmd/scipipe (audit2html, audit2tex, audit2bash; in every second case a longer stale report of the same name already exists); the outputs are parsed back and compared with the record flattened by id: every task (non-empty process name) listed exactly once, in non-decreasing start-time order, with its command, parameters and tags as the format prints them; for (a) the generated Bash script is executed in a directory holding only the source files and must re-create the file byte-identically. distinct_nontrivial = distinct audit trees with >= 2 tasks whose three conversions were all compared")
 	c.Assume("source-file pseudo records (empty process name) are not tasks and are not judged", "TeX: '_' is printed as '\\_' and parameters as k=v; Bash: '../' is removed from commands by the template")
 	rng := c.Rand("c20")
 	type job struct {
@@ -503,6 +503,30 @@ func c20(args []string) {
 					sort.Strings(ids)
 					c.Violation("task-listed-more-than-once:one-execution-under-several-ids", fmt.Sprintf("the lineage of %s records one task execution (%s) under %d different ids %v: every report lists it %d times", finalPath, strings.Replace(k, "\x00", ": ", 1), len(ids), ids, len(ids)), desc)
 					return
+				}
+			}
+		}
+		if j.kind == "real" && i%3 == 1 {
+			// records as an older version of the library wrote them: no OutFiles field at all
+			if raw, err := os.ReadFile(filepath.Join(dir, auditFile)); err == nil {
+				var v interface{}
+				if json.Unmarshal(raw, &v) == nil {
+					var strip func(x interface{})
+					strip = func(x interface{}) {
+						if m, ok := x.(map[string]interface{}); ok {
+							delete(m, "OutFiles")
+							if up, ok := m["Upstream"].(map[string]interface{}); ok {
+								for _, u := range up {
+									strip(u)
+								}
+							}
+						}
+					}
+					strip(v)
+					if nb, err := json.MarshalIndent(v, "", "    "); err == nil {
+						os.WriteFile(filepath.Join(dir, auditFile), nb, 0644)
+						desc["records_without_OutFiles"] = true
+					}
 				}
 			}
 		}
